@@ -76,20 +76,53 @@ def generic_scenario(rng):
 
 
 def inheritance_scenario(rng):
+    """chains of 3-4 dataclasses in which fields are re-declared at random levels with other defaults /
+    kw_only flags (every field has a default, so any declaration order is a legal dataclass)"""
     i = next(_ctr)
     mixin = rng.random() < 0.6
     base = "(DataClassDictMixin)" if mixin else ""
-    kw = rng.random() < 0.4
+    pool = {
+        "a": ("int", ["0", "1", "5", "-3"], ["7", "0", "42"]),
+        "b": ("str", ["''", "'x'", "'dflt'"], ["'q'", "''", "'zz'"]),
+        "c": ("Optional[Decimal]", ["None", "Decimal('1.5')"], ["None", "Decimal('2')", "Decimal('0')"]),
+        "d": ("List[datetime.date]", None, ["[]", "[datetime.date(2020, 1, 1)]"]),
+        "e": ("Optional[int]", ["None", "5", "0"], ["None", "3", "0"]),
+    }
+    depth = rng.choice([3, 3, 4])
+    names = [f"L{k}" for k in range(depth)]
     main = gen.PRELUDE
-    main += f"@dataclass\nclass Base{base}:\n    x: int\n    tag: str = 'b'\n"
-    main += "@dataclass\nclass Mid(Base):\n    y: List[datetime.date] = field(default_factory=list)\n    tag: str = 'm'\n"
-    main += f"@dataclass{'(kw_only=True)' if kw else ''}\nclass Leaf(Mid):\n    z: Optional[Decimal] = None\n    x: int = 7\n"
-    main += f"@dataclass\nclass Box{base}:\n    b: Base\n    m: Mid\n    l: Leaf\n    ls: List[Leaf]\n"
-    leaf = "Leaf(x=1, tag='q', y=[datetime.date(2020,1,1)], z=Decimal('1.5'))" if kw else "Leaf(1, 'q', [datetime.date(2020,1,1)], Decimal('1.5'))"
-    value = f"Box(Base(1), Mid(2, 'mm', [datetime.date(2022, 2, 2)]), {leaf}, [{leaf}, Leaf(x=3)])"
-    root = rng.choice([("Box", value), ("Leaf", leaf), ("Mid", "Mid(5)")])
-    return dict(mods={}, main=main, type=root[0], values=[root[1]], mixin=mixin and root[0] in ("Box", "Leaf", "Mid"),
-                name="inheritance", shape=root[0] + ("/kw" if kw else ""))
+    for k, cn in enumerate(names):
+        parent = base if k == 0 else f"({names[k - 1]})"
+        decl = rng.sample(sorted(pool), rng.randrange(1, 4)) if k else rng.sample(sorted(pool), rng.randrange(2, 5))
+        deco = "@dataclass(kw_only=True)" if (k and rng.random() < 0.25) else "@dataclass"
+        main += f"{deco}\nclass {cn}{parent}:\n"
+        for fn in decl:
+            ty, defaults, _ = pool[fn]
+            kw = ", kw_only=True" if rng.random() < 0.3 else ""
+            if defaults is None:
+                main += f"    {fn}: {ty} = field(default_factory=list{kw})\n"
+            else:
+                main += f"    {fn}: {ty} = field(default={rng.choice(defaults)}{kw})\n"
+    main += f"@dataclass\nclass Box{base}:\n" + "".join(f"    f{k}: {cn}\n" for k, cn in enumerate(names)) + f"    fl: List[{names[-1]}] = field(default_factory=list)\n"
+
+    def inst(cn):
+        # keyword construction with a random subset of the fields (the others take their defaults)
+        kws = []
+        for fn in sorted(pool):
+            if rng.random() < 0.6:
+                kws.append(f"{fn}={rng.choice(pool[fn][2])}")
+        return cn, kws
+
+    def src(cn, kws):
+        return f"_mk({cn}, dict(" + ", ".join(kws) + "))"
+    # _mk drops keyword arguments the class does not declare
+    main += "def _mk(cls, kw):\n    names = {f.name for f in dataclasses.fields(cls)}\n    return cls(**{k: v for k, v in kw.items() if k in names})\n"
+    root = rng.choice(["Box"] + names)
+    if root == "Box":
+        value = "Box(" + ", ".join(src(*inst(cn)) for cn in names) + ", [" + src(*inst(names[-1])) + "])"
+    else:
+        value = src(*inst(root))
+    return dict(mods={}, main=main, type=root, values=[value], mixin=mixin, name="inheritance", shape=f"{root}/depth{depth}")
 
 
 SCENARIOS = [generic_scenario, generic_scenario, inheritance_scenario]
